@@ -205,7 +205,7 @@ func runC15(r *hk.Run) {
 		if !ok {
 			continue
 		}
-		w.exhaust(d, defaultSet, r.Scale(7, 12))
+		w.exhaust(d, defaultSet, r.Scale(5, 12))
 	}
 
 	// C. settings and content types
